@@ -292,6 +292,7 @@ func concRun(cs *C18Case, sr *RNG, replay bool, st *C18Stats) *concResult {
 			S.inOp[c] = k
 			P.BeginOp(c, op.Adv)
 			o := w.Exec(&op)
+			S.inOp[c] = -1 // (the step budget is only enforced inside operations)
 			if cs.Env && op.Adv != 0 {
 				ar := RNG{s: op.Adv ^ 0xe17}
 				if ar.Intn(3) == 0 {
@@ -299,7 +300,6 @@ func concRun(cs *C18Case, sr *RNG, replay bool, st *C18Stats) *concResult {
 				}
 			}
 			P.BeginOp(c, 0)
-			S.inOp[c] = -1
 			res.outs[c][k] = o
 			if o.St == stDeadlock {
 				res.deadlock = true
